@@ -12,6 +12,7 @@ import Aegean.Spec.C04
                                                -> nrows then nrows*npix entries, row-major (jacRows)
     lmjac n npix comps… pixels… E B            -> npix then nrows, then npix*nrows entries, row-major (lmfitJacGen:
                                                   the regenerated pipeline of lmfit_jacobian run by Model.runOps)
+    ampzero                                    -> 1 if the source special-cases amp == 0 in the amplitude derivative, else 0
     pipeline                                   -> src len op0 op1 … (the regenerated pipeline itself)
     fisherwords                                -> jacC jacB sigma maskCovar maskFit C <word> B <word>  (regenerated Fisher assembly of covar_errors)
           E ::= enone | escalar v | evec v*npix       B ::= bnone | bmat v*(npix*npix)
@@ -106,6 +107,20 @@ def parseIdx? (s : String) : Option (Option Nat) :=
 def showTable (n : Nat) (t : Table) : String :=
   " ".intercalate ((keys n).map (fun k => showIdx (t k)))
 
+/-- the regenerated leaves as the code evaluates them at Float: the `amp == 0` special case of the amplitude entry
+    when the source has one (`Gen.C04.dmdsZero = 1`) -/
+def genDerivsF : Derivs Float :=
+  { (genDerivs : Derivs Float) with
+    dmds := fun x y a xo yo sx sy th =>
+      if Gen.C04.dmdsZero x y a xo yo sx sy th == 1 && a == 0 then Gen.C04.dmds0 x y a xo yo sx sy th
+      else Gen.C04.dmds x y a xo yo sx sy th }
+
+/-- the proved hand formulas; at `amp = 0` the true derivative is the unit-amplitude Gaussian -/
+def handDerivsF : Derivs Float :=
+  { (handDerivs : Derivs Float) with
+    dmds := fun x y a xo yo sx sy th =>
+      if a == 0 then dmds0Hand x y a xo yo sx sy th else dmdsHand x y a xo yo sx sy th }
+
 def handleD (D : Derivs Float) (truth : Bool) (ws : List String) : String :=
   match ws with
   | "leaf" :: rest =>
@@ -162,15 +177,16 @@ def handleD (D : Derivs Float) (truth : Bool) (ws : List String) : String :=
 
 def handle (ws : List String) : String :=
   match ws with
-  | "tleaf" :: rest => handleD handDerivs true ("leaf" :: rest)
-  | "tsum" :: rest => handleD handDerivs true ("sum" :: rest)
-  | "tjac" :: rest => handleD handDerivs true ("jac" :: rest)
-  | "tlmjac" :: rest => handleD handDerivs true ("lmjac" :: rest)
-  | "leaf" :: _ | "sum" :: _ | "jac" :: _ | "lmjac" :: _ => handleD genDerivs false ws
+  | "tleaf" :: rest => handleD handDerivsF true ("leaf" :: rest)
+  | "tsum" :: rest => handleD handDerivsF true ("sum" :: rest)
+  | "tjac" :: rest => handleD handDerivsF true ("jac" :: rest)
+  | "tlmjac" :: rest => handleD handDerivsF true ("lmjac" :: rest)
+  | "leaf" :: _ | "sum" :: _ | "jac" :: _ | "lmjac" :: _ => handleD genDerivsF false ws
   | ["fisherwords"] =>
     s!"{Gen.C04.fisJacC 0} {Gen.C04.fisJacB 0} {Gen.C04.fisSigma 0} {Gen.C04.fisMask 0} {Gen.C04.fitMask 0} C " ++
       showNats ((List.range (Gen.C04.fisLenC 0)).map Gen.C04.fisWordC) ++ " B " ++
       showNats ((List.range (Gen.C04.fisLenB 0)).map Gen.C04.fisWordB)
+  | ["ampzero"] => if Gen.C04.dmdsZero (0 : Float) 0 0 0 0 1 1 0 == 1 then "1" else "0"
   | ["pipeline"] =>
     s!"{Gen.C04.lmjSrc 0} {Gen.C04.lmjLen 0} " ++ showNats ((List.range (Gen.C04.lmjLen 0)).map Gen.C04.lmjOp)
   | "assign" :: masks =>
